@@ -722,7 +722,7 @@ func (c *Conn) handleCall(ctx context.Context, call rpccp.Call, releaseCall capn
 			ans.setPipelineCaller(pcall)
 		} else {
 			// Results not ready, use pipeline caller.
-			tgtAns.pcalls.Add(1) // will be finished by answer.Return
+			tgtAns.pcallsPending++ // answer.Return waits for delivery
 			var callCtx context.Context
 			callCtx, ans.cancel = context.WithCancel(c.bgctx)
 			tgt := tgtAns.pcall
@@ -735,7 +735,9 @@ func (c *Conn) handleCall(ctx context.Context, call rpccp.Call, releaseCall capn
 				ReleaseArgs: releaseArgs,
 				Returner:    ans,
 			})
-			tgtAns.pcalls.Done()
+			c.mu.Lock()
+			tgtAns.pipelineCallDelivered()
+			c.mu.Unlock()
 			ans.setPipelineCaller(pcall)
 		}
 		return nil
